@@ -18,6 +18,8 @@ SD = "src/evaluator/showdown.rs"
 
 OLD_LOOP = '        for high_rank in RankRange::all() {\n            for kicker_rank in RankRange::inclusive(high_rank, Rank::Deuce) {\n                for high_suit in SuitRange::all() {\n                    for kicker_suit in SuitRange::all() {\n                        let pair = CardPair::new(\n                            Card::new(high_rank, high_suit),\n                            Card::new(kicker_rank, kicker_suit),\n                        );\n                        let probability = orphan_card_pairs.get(&pair);\n\n                        if let Some(probability) = probability {\n                            tokens.push(HandRangeToken::new(\n                                HandRangeTokenKind::SingleCardPair(pair),\n                                *probability,\n                            ));\n                        }\n                    }\n                }\n            }\n        }\n'
 
+WL_OLD = '        let mut len = 0;\n\n        for player in &self.players {\n            if player.win {\n                len += 1;\n            }\n        }\n\n        len\n'
+
 MUTANTS = [
     M("c04-write-before-exhaust", ["C04"], (FE, """        if self.current_turn_index >= self.turn_to && self.current_river_index >= self.river_to {
             return None;""", """        if self.current_turn_index >= self.turn_to && self.current_river_index >= self.river_to {
@@ -204,6 +206,9 @@ MUTANTS = [
     M("c06-parser-kind-letter", ["C06", "C05"], (TK, 'Regex::new(r"^[AKQJT98765432]{2}[so]\\+(:', 'Regex::new(r"^[AKQJT98765432]{2}[su]\\+(:')),
     M("c06-range-separator", ["C06"], (HRS, 'res = res.and(write!(f, ",{}", token));', 'res = res.and(write!(f, ";{}", token));')),
     M("benign-c06-comma-space", ["C06"], (HRS, 'res = res.and(write!(f, ",{}", token));', 'res = res.and(write!(f, ", {}", token));'), benign=True),
+    M("benign-c03-winner-len-iter", ["C03", "C11", "C08"], (SD, WL_OLD, "        self.players.iter().filter(|player| player.win).count() as u8\n"), benign=True),
+    M("c03-winner-len-iter-skip", ["C03"], (SD, WL_OLD, "        self.players.iter().skip(1).filter(|player| player.win).count() as u8\n")),
+    M("benign-c08-any-fn-item", ["C08"], (FE, "if self.player_entries.iter().any(|entry| entry.is_empty()) {", "if self.player_entries.iter().any(Vec::is_empty) {"), benign=True),
     M("c08-recursion", ["C08"], (FE, """        loop {
             if let Some(showdown) = self.next_deal()? {
                 return Some(showdown);
@@ -225,6 +230,30 @@ MUTANTS = [
             let ri = self.current_player_indexes.len() - i - 1;
 """, """        for ri in (0..self.current_player_indexes.len()).rev() {
 """), benign=True),
+    M("benign-c02-insert-as-test", ["C02"], (FE, """            if self.current_used_cards.contains(&entry.0[0])
+                || self.current_used_cards.contains(&entry.0[1])
+            {
+                is_materialized = false;
+            }
+
+            self.current_used_cards.insert(entry.0[0]);
+            self.current_used_cards.insert(entry.0[1]);
+""", """            let fresh0 = self.current_used_cards.insert(entry.0[0]);
+            let fresh1 = self.current_used_cards.insert(entry.0[1]);
+
+            if !fresh0 || !fresh1 {
+                is_materialized = false;
+            }
+"""), benign=True),
+    M("c02-insert-result-ignored", ["C02"], (FE, """            if self.current_used_cards.contains(&entry.0[0])
+                || self.current_used_cards.contains(&entry.0[1])
+            {
+                is_materialized = false;
+            }
+""", """            if self.current_used_cards.contains(&entry.0[0]) {
+                is_materialized = false;
+            }
+""")),
     M("c02-prob-sum", ["C02"], (FE, "probability *= entry.1;", "probability += entry.1;")),
     M("c02-prob-first-only", ["C02"], (FE, "probability *= entry.1;", "if player_index == 0 { probability *= entry.1; }")),
     M("c02-board-swap", ["C02"], (FE, "self.current_board[3] = Some(turn);\n        self.current_board[4] = Some(river);", "self.current_board[3] = Some(river);\n        self.current_board[4] = Some(turn);")),
